@@ -77,7 +77,8 @@ pub struct Gen {
 
 const BOUNDARY_IDS: [u64; 6] = [0, 1, 9007199254740989, 9007199254740990, 9007199254740991, u64::MAX];
 const RATES: [u64; 6] = [10, 100, 190, 200, 290, 300];
-const BAD_RATES: [u64; 5] = [0, 9, 301, 5000, u64::MAX];
+// out of bounds, including values that look legal once truncated to 8 / 16 / 32 bits
+const BAD_RATES: [u64; 12] = [0, 9, 301, 5000, u64::MAX, 512 + 100, 65_536 + 150, 4_294_967_296 + 10, 4_294_967_296 + 300, 4_294_967_296 * 7 + 200, 1 << 40, u64::MAX - 5];
 const LIFETIMES: [u64; 8] = [600, 600, 601, 900, 3600, 86400, 1209599, 1209600];
 const BAD_LIFETIMES: [u64; 5] = [0, 599, 1209601, 10_000_000, u64::MAX];
 
@@ -847,6 +848,9 @@ impl Gen {
         let admin = o.admins.get(&coll).cloned().flatten();
         let sender = if self.rng.chance(5, 6) {
             admin.clone().unwrap_or_else(|| self.rng.pick(&ADMINS).to_string())
+        } else if self.rng.chance(1, 4) {
+            // a different account whose name differs from the admin's only in letter case
+            admin.clone().map(|a| a.to_uppercase()).unwrap_or_else(|| self.any_account(names))
         } else {
             self.any_account(names)
         };
@@ -1371,8 +1375,11 @@ impl Gen {
             self.script.push_back(Op::tx(owner, m, msgs::create_bucket(i), vec![fund("uatom", i as u128)]));
         }
         let ask = AskSpec { native: vec![("ujunox".into(), 1000)], ..Default::default() };
+        // sometimes (nearly) every listing is reserved for one buyer (more than 256 reserved entries)
+        let reserve_all = self.rng.chance(1, 3);
+        let n_listings = if reserve_all { self.rng.range(258, 300) } else { n_listings };
         for i in 1..=n_listings {
-            let wl = if i % 7 == 0 { Some("user1") } else { None };
+            let wl = if i % 7 == 0 || (reserve_all && i % 50 != 1) { Some("user1") } else { None };
             self.script.push_back(Op::tx(owner, m, msgs::create_listing(i, &ask, wl), vec![fund("uatom", 1 + i as u128)]));
             if i % 3 != 0 {
                 let secs = *self.rng.pick(&LIFETIMES);
